@@ -672,62 +672,74 @@ Proof.
 Qed.
 
 (* ---- the views loop when every sofa data array has an id: nothing is assigned ---- *)
-Lemma step_view_settled L s c fss views v :
+Lemma step_view_settled L s c fss views wr v :
   (forall o, s_arr (v_sofa v) = Some o -> has_some_id (c_heap c) o) ->
-  step_view L s (Ok (c, fss, views)) v = do out <- view_out L s c v ;; Ok (c, fss ++ fst out, views ++ [snd out]).
+  step_view L s (Ok (c, fss, views, wr)) v
+  = do out <- view_out L s c (wr, v) ;; Ok (c, fss ++ fst out, views ++ [snd out], wr ++ arr_of (wr, v)).
 Proof.
-  intros Hid. unfold step_view, view_out, arr_out. cbn [bind].
+  intros Hid. unfold step_view, view_out, arr_out, arr_of. cbn [bind fst snd].
   destruct (Json.enc_view (c_heap c) v) as [jv| |]; cbn [bind]; try reflexivity.
-  destruct (s_arr (v_sofa v)) as [o|] eqn:Ea.
+  destruct (s_arr (v_sofa v)) as [o|] eqn:Ea; [destruct (omem o wr)|].
+  - cbn [bind]. destruct (Json.enc_sofa L c (v_sofa v)) as [ms| |]; cbn [bind]; [rewrite app_nil_r|..]; reflexivity.
   - destruct (Hid o eq_refl) as (f & i & Eg & Ei). rewrite Eg, Ei.
     destruct (Json.enc_fs L s c f) as [m| |]; cbn [bind]; try reflexivity.
     destruct (Json.enc_sofa L c (v_sofa v)) as [ms| |]; cbn [bind]; reflexivity.
-  - cbn [bind]. destruct (Json.enc_sofa L c (v_sofa v)) as [ms| |]; cbn [bind]; reflexivity.
+  - cbn [bind]. destruct (Json.enc_sofa L c (v_sofa v)) as [ms| |]; cbn [bind]; [rewrite app_nil_r|..]; reflexivity.
 Qed.
-Lemma loop_settled L s : forall vs c fss views,
+Lemma loop_settled L s : forall vs c fss views wr,
   (forall v o, In v vs -> s_arr (v_sofa v) = Some o -> has_some_id (c_heap c) o) ->
-  fold_left (step_view L s) vs (Ok (c, fss, views))
-  = do outs <- mapM (view_out L s c) vs ;; Ok (c, fss ++ List.concat (map fst outs), views ++ map snd outs).
+  fold_left (step_view L s) vs (Ok (c, fss, views, wr))
+  = do outs <- mapM (view_out L s c) (tag_views wr vs) ;;
+    Ok (c, fss ++ List.concat (map fst outs), views ++ map snd outs, wr ++ flat_map arr_of (tag_views wr vs)).
 Proof.
-  induction vs as [|v r IH]; intros c fss views Hid.
-  - cbn [fold_left mapM bind map List.concat]. rewrite !app_nil_r. reflexivity.
-  - cbn [fold_left mapM]. rewrite step_view_settled by (intros o Ho; apply (Hid v o); [left; reflexivity|exact Ho]).
-    destruct (view_out L s c v) as [out| |]; cbn [bind]; [|apply fold_step_err|apply fold_step_oof].
+  induction vs as [|v r IH]; intros c fss views wr Hid.
+  - cbn [fold_left tag_views mapM bind map List.concat flat_map]. rewrite !app_nil_r. reflexivity.
+  - cbn [fold_left tag_views mapM flat_map]. rewrite step_view_settled by (intros o Ho; apply (Hid v o); [left; reflexivity|exact Ho]).
+    destruct (view_out L s c (wr, v)) as [out| |]; cbn [bind]; [|apply fold_step_err|apply fold_step_oof].
     rewrite IH by (intros v' o Hv; apply Hid; right; exact Hv).
-    destruct (mapM (view_out L s c) r) as [outs| |]; cbn [bind map List.concat]; try reflexivity.
+    destruct (mapM (view_out L s c) (tag_views (wr ++ arr_of (wr, v)) r)) as [outs| |]; cbn [bind map List.concat]; try reflexivity.
     rewrite <- !app_assoc. reflexivity.
 Qed.
-Lemma view_out_variant L s c1 c2 v1 v2 out : same_sofas c1 c2 -> view_perm v1 v2 ->
-  view_out L s c1 v1 = Ok out -> view_out L s c2 v2 = Ok out.
+Lemma view_out_variant L s c1 c2 wr v1 v2 out : same_sofas c1 c2 -> view_perm v1 v2 ->
+  view_out L s c1 (wr, v1) = Ok out -> view_out L s c2 (wr, v2) = Ok out.
 Proof.
-  intros SS VP. pose proof VP as [Es _]. unfold view_out, arr_out. rewrite <- Es, <- (proj1 SS).
+  intros SS VP. pose proof VP as [Es _]. unfold view_out, arr_out. cbn [fst snd]. rewrite <- Es, <- (proj1 SS).
   destruct (Json.enc_view (c_heap c1) v1) as [jv| |] eqn:Ev; cbn [bind]; try discriminate.
   rewrite (jenc_view_perm _ _ _ _ VP Ev). cbn [bind].
   rewrite <- (jenc_sofa_ext L c1 c2 SS).
-  destruct (s_arr (v_sofa v1)); [|auto]. destruct (hget (c_heap c1) o); [|auto]. rewrite <- (jenc_fs_ext L s c1 c2 SS). auto.
+  destruct (s_arr (v_sofa v1)); [|auto]. destruct (omem o wr); [auto|]. destruct (hget (c_heap c1) o); [|auto]. rewrite <- (jenc_fs_ext L s c1 c2 SS). auto.
+Qed.
+(* views that differ in the order of their members only are tagged alike *)
+Lemma tag_views_variant : forall vs1 vs2 wr, Forall2 view_perm vs1 vs2 ->
+  Forall2 (fun p p' => fst p = fst p' /\ view_perm (snd p) (snd p')) (tag_views wr vs1) (tag_views wr vs2) /\
+  flat_map arr_of (tag_views wr vs1) = flat_map arr_of (tag_views wr vs2).
+Proof.
+  induction vs1 as [|v r IH]; intros vs2 wr H; inversion H as [|? v' ? r' Hv Hr]; subst; cbn [tag_views flat_map]; [split; [constructor|reflexivity]|].
+  assert (Ea : arr_of (wr, v) = arr_of (wr, v')) by (unfold arr_of; cbn [fst snd]; rewrite (proj1 Hv); reflexivity).
+  rewrite <- Ea. destruct (IH r' (wr ++ arr_of (wr, v)) Hr) as [A B]. split; [constructor; [split; [reflexivity|exact Hv]|exact A]|rewrite B; reflexivity].
 Qed.
 
 Section JsonSave.
 Variables (L : lex) (s : schema) (mode : tsmode).
 
-(* the document as a function of the loop's outputs and the traversal's result *)
-Definition json_doc (c2 : cas) (outs : list (list json * (string * json))) (w : wstate) : res json :=
+(* the document as a function of the loop's outputs, the byte arrays the loop wrote and the traversal's result *)
+Definition json_doc (c2 : cas) (outs : list (list json * (string * json))) (wr : list oid) (w : wstate) : res json :=
   let found := sort_ids (w_all w) in
-  do fss <- mapM (fun io => do f <- fs_at c2 io ;; do m <- Json.enc_fs L s c2 f ;; Ok (JObj m)) found ;;
+  do fss <- mapM (fun io => do f <- fs_at c2 io ;; do m <- Json.enc_fs L s c2 f ;; Ok (JObj m)) (unwritten wr found) ;;
   do used <- mapM (fun io => do f <- fs_at c2 io ;; Ok (o_type f)) found ;;
   do types <- ser_types s mode used ;;
   Ok (JObj (types ++ [(K_FS, JArr (List.concat (map fst outs) ++ fss)); (K_VIEWS, JObj (map snd outs))])).
-Lemma save_json_unfold c c1 outs w :
-  save_found L s c = Ok (c1, List.concat (map fst outs), map snd outs, w) ->
-  save_json L s mode c = do d <- json_doc (cas_after c1 w) outs w ;; Ok (d, cas_after c1 w).
+Lemma save_json_unfold c c1 outs wr w :
+  save_found_wr L s c = Ok (c1, List.concat (map fst outs), map snd outs, wr, w) ->
+  save_json L s mode c = do d <- json_doc (cas_after c1 w) outs wr w ;; Ok (d, cas_after c1 w).
 Proof.
   intros E. unfold save_json, json_doc. rewrite E. cbn [bind].
-  destruct (mapM _ (sort_ids (w_all w))) as [fss| |]; cbn [bind]; try reflexivity.
+  destruct (mapM _ (unwritten wr (sort_ids (w_all w)))) as [fss| |]; cbn [bind]; try reflexivity.
   destruct (mapM _ (sort_ids (w_all w))) as [used| |]; cbn [bind]; try reflexivity.
   destruct (ser_types s mode used); reflexivity.
 Qed.
-Lemma json_doc_variant c1 c2 outs w1 w2 : same_sofas c1 c2 -> sort_ids (w_all w1) = sort_ids (w_all w2) ->
-  json_doc c1 outs w1 = json_doc c2 outs w2.
+Lemma json_doc_variant c1 c2 outs wr w1 w2 : same_sofas c1 c2 -> sort_ids (w_all w1) = sort_ids (w_all w2) ->
+  json_doc c1 outs wr w1 = json_doc c2 outs wr w2.
 Proof.
   intros SS Es. unfold json_doc. rewrite <- Es.
   rewrite (jmapM_ext_in (fun io => do f <- fs_at c1 io ;; do m <- Json.enc_fs L s c1 f ;; Ok (JObj m))
@@ -799,29 +811,32 @@ Proof.
   pose proof (settled_variant true s c1 c2 V ST) as [R2 Ar2].
   pose proof (variant_sofas _ _ V) as SS. pose proof V as (Eh & En & Hv).
   (* the loops *)
-  pose proof (loop_settled L s (c_views c1) c1 [] [] Ar1) as Lp1. cbn [app] in Lp1.
-  pose proof (loop_settled L s (c_views c2) c2 [] [] Ar2) as Lp2. cbn [app] in Lp2.
-  unfold save_json in HS. unfold save_found in HS. rewrite Lp1 in HS.
-  destruct (mapM (view_out L s c1) (c_views c1)) as [outs| |] eqn:Eo; cbn [bind] in HS; try discriminate.
+  pose proof (loop_settled L s (c_views c1) c1 [] [] [] Ar1) as Lp1. cbn [app] in Lp1.
+  pose proof (loop_settled L s (c_views c2) c2 [] [] [] Ar2) as Lp2. cbn [app] in Lp2.
+  destruct (tag_views_variant (c_views c1) (c_views c2) [] Hv) as [TV TW].
+  unfold save_json in HS. unfold save_found_wr in HS. rewrite Lp1 in HS.
+  destruct (mapM (view_out L s c1) (tag_views [] (c_views c1))) as [outs| |] eqn:Eo; cbn [bind] in HS; try discriminate.
   rewrite E1 in HS. cbn [bind] in HS.
   destruct (find_all_variant true c1 c2 w1 RI ST V E1) as (Eh1 & En1 & w2 & E2 & Eh2 & En2 & Pall).
   assert (Ec1 : cas_after c1 w1 = c1) by (unfold cas_after; rewrite Eh1, En1; apply cas_eta).
   assert (Ec2 : cas_after c2 w2 = c2) by (unfold cas_after; rewrite Eh2, En2; apply cas_eta).
   rewrite Ec1 in HS.
-  assert (Eo2 : mapM (view_out L s c2) (c_views c2) = Ok outs).
-  { apply (jmapM_Forall2_imp (view_out L s c1) (view_out L s c2) view_perm) with (l := c_views c1); [|exact Hv|exact Eo].
-    intros a a' b Ha. apply view_out_variant; [split; assumption|exact Ha]. }
-  assert (SF1 : save_found L s c1 = Ok (c1, List.concat (map fst outs), map snd outs, w1)).
-  { unfold save_found. rewrite Lp1. cbn [bind]. rewrite E1. reflexivity. }
-  assert (SF2 : save_found L s c2 = Ok (c2, List.concat (map fst outs), map snd outs, w2)).
-  { unfold save_found. rewrite Lp2, Eo2. cbn [bind]. rewrite E2. reflexivity. }
+  assert (Eo2 : mapM (view_out L s c2) (tag_views [] (c_views c2)) = Ok outs).
+  { apply (jmapM_Forall2_imp (view_out L s c1) (view_out L s c2) (fun p p' => fst p = fst p' /\ view_perm (snd p) (snd p')))
+      with (l := tag_views [] (c_views c1)); [|exact TV|exact Eo].
+    intros [wa a] [wa' a'] b [Hw Ha]. cbn [fst snd] in Hw, Ha. subst wa'. apply view_out_variant; [split; assumption|exact Ha]. }
+  set (wr := flat_map arr_of (tag_views [] (c_views c1))) in *.
+  assert (SF1 : save_found_wr L s c1 = Ok (c1, List.concat (map fst outs), map snd outs, wr, w1)).
+  { unfold save_found_wr. rewrite Lp1. cbn [bind]. rewrite E1. reflexivity. }
+  assert (SF2 : save_found_wr L s c2 = Ok (c2, List.concat (map fst outs), map snd outs, wr, w2)).
+  { unfold save_found_wr. rewrite Lp2, Eo2. cbn [bind]. rewrite E2, <- TW. reflexivity. }
   assert (HS' : save_json L s mode c1 = Ok (d, c1')).
   { unfold save_json. rewrite SF1. cbn [bind]. rewrite Ec1. exact HS. }
-  rewrite (save_json_unfold c1 c1 outs w1 SF1), Ec1 in HS'.
-  rewrite (save_json_unfold c2 c2 outs w2 SF2), Ec2.
-  rewrite <- (json_doc_variant c1 c2 outs w1 w2 (conj Eh SS)).
+  rewrite (save_json_unfold c1 c1 outs wr w1 SF1), Ec1 in HS'.
+  rewrite (save_json_unfold c2 c2 outs wr w2 SF2), Ec2.
+  rewrite <- (json_doc_variant c1 c2 outs wr w1 w2 (conj Eh SS)).
   2:{ apply sort_ids_perm_eq; [exact Pall|]. exact (proj1 (find_all_each_once _ _ _ _ _ E1)). }
-  destruct (json_doc c1 outs w1) as [d'| |]; cbn [bind] in *; try discriminate. inversion HS'; subst. split; reflexivity.
+  destruct (json_doc c1 outs wr w1) as [d'| |]; cbn [bind] in *; try discriminate. inversion HS'; subst. split; reflexivity.
 Qed.
 Corollary json_save_member_set_independent c1 c2 d c1' :
   reach_inb true s c1 = true -> settledb true s c1 = true -> member_set_variant c1 c2 -> members_nodup c1 -> members_nodup c2 ->
@@ -839,81 +854,67 @@ Theorem json_save_idempotent c d c2 : 0 < c_next_id c -> sofa_arrays_bytesb c = 
   save_json L s mode c = Ok (d, c2) -> save_json L s mode c2 = Ok (d, c2).
 Proof.
   intros Hpos SB HS. pose proof HS as HS0. unfold save_json in HS.
-  destruct (save_found L s c) as [[[[c1 sofa_fs] views] w]| |] eqn:Esf; cbn [bind] in HS; try discriminate.
-  destruct (save_found_stable L s c c1 sofa_fs views w Hpos Esf) as (Efold & Ew & Ew').
-  destruct (loop_spec L s _ _ _ _ _ _ _ Efold) as [X1 Hloop].
+  destruct (save_found_wr L s c) as [[[[[c1 sofa_fs] views] wr] w]| |] eqn:Esf; cbn [bind] in HS; try discriminate.
+  destruct (save_found_stable L s c c1 sofa_fs views wr w Hpos Esf) as (Efold & Ew & Ew').
+  destruct (loop_spec L s _ _ _ _ _ _ _ _ _ (fun o (H : In o []) => match H with end) Efold) as (X1 & Hwr & Hwids & Hloop).
   pose proof (find_all_ext s c1 w Ew) as X2.
   assert (Ec2 : c2 = cas_after c1 w).
-  { destruct (mapM _ (sort_ids (w_all w))) as [fss| |] in HS; cbn [bind] in HS; try discriminate.
+  { destruct (mapM _ (unwritten wr (sort_ids (w_all w)))) as [fss| |] in HS; cbn [bind] in HS; try discriminate.
     destruct (mapM _ (sort_ids (w_all w))) as [used| |] in HS; cbn [bind] in HS; try discriminate.
     destruct (ser_types s mode used) in HS; cbn [bind] in HS; try discriminate. inversion HS; reflexivity. }
   clear HS.
   assert (X12 : ext c (cas_after c1 w)) by (eapply ext_trans; eassumption).
-  destruct (Hloop (cas_after c1 w) X2 (arrays_bytes_of c _ SB X12)) as (outs & Houts & Hsfs & Hvws). cbn [app] in Hsfs, Hvws. subst sofa_fs views.
-  rewrite (save_json_unfold c c1 outs w Esf) in HS0.
+  destruct (Hloop (cas_after c1 w) X2 (arrays_bytes_of c _ SB X12)) as (outs & Houts & Hsfs & Hvws). cbn [app] in Hsfs, Hvws, Hwr. subst sofa_fs views.
+  rewrite (save_json_unfold c c1 outs wr w Esf) in HS0.
   (* the second save: every sofa data array has its id, so the loop changes nothing; the traversal is stable *)
   assert (Hv2 : c_views (cas_after c1 w) = c_views c) by (rewrite (proj1 X12); reflexivity).
   assert (Ar2 : forall v o, In v (c_views (cas_after c1 w)) -> s_arr (v_sofa v) = Some o -> has_some_id (c_heap (cas_after c1 w)) o).
   { intros v o Hv Ho. rewrite Hv2 in Hv.
-    (* the loop of the first save handed it an id (or it had one) *)
-    assert (Hl : forall vs cA fssA vwsA cB fssB vwsB, fold_left (step_view L s) vs (Ok (cA, fssA, vwsA)) = Ok (cB, fssB, vwsB) ->
-               In v vs -> has_some_id (c_heap cB) o).
-    { induction vs as [|v0 r IH]; intros cA fssA vwsA cB fssB vwsB Hf Hin; [destruct Hin|].
-      cbn [fold_left] in Hf. destruct (step_view L s (Ok (cA, fssA, vwsA)) v0) as [[[cM fssM] vwsM]|e|] eqn:E1;
-        [|rewrite fold_step_err in Hf; discriminate|rewrite fold_step_oof in Hf; discriminate].
-      destruct Hin as [->|Hin]; [|exact (IH _ _ _ _ _ _ Hf Hin)].
-      destruct (loop_spec L s _ _ _ _ _ _ _ Hf) as [XM _].
-      assert (HM : has_some_id (c_heap cM) o).
-      { unfold step_view in E1. cbn [bind] in E1. destruct (Json.enc_view (c_heap cA) v) as [jv| |]; cbn [bind] in E1; try discriminate.
-        rewrite Ho in E1. destruct (hget (c_heap cA) o) as [f|] eqn:Eg; [|discriminate].
-        destruct (o_id f) as [i|] eqn:Ei.
-        - destruct (Json.enc_fs L s cA f); cbn [bind] in E1; try discriminate.
-          destruct (Json.enc_sofa L cA (v_sofa v)); cbn [bind] in E1; try discriminate. inversion E1; subst. exists f, i. split; assumption.
-        - destruct (Json.enc_fs L s _ _); cbn [bind] in E1; try discriminate.
-          destruct (Json.enc_sofa L _ (v_sofa v)); cbn [bind] in E1; try discriminate. inversion E1; subst. cbn [c_heap].
-          exists (set_id f (c_next_id cA)), (c_next_id cA). split; [eapply hget_hset_same; exact Eg|reflexivity]. }
-      destruct HM as (f & i & Eg & Ei). destruct (proj2 XM o f Eg) as (f' & Eg' & _ & _ & I). exists f', i. split; [exact Eg'|apply I; exact Ei]. }
-    destruct (Hl _ _ _ _ _ _ _ Efold Hv) as (f & i & Eg & Ei).
-    destruct (proj2 X2 o f Eg) as (f' & Eg' & _ & _ & I). exists f', i. split; [exact Eg'|apply I; exact Ei]. }
-  pose proof (loop_settled L s (c_views (cas_after c1 w)) (cas_after c1 w) [] [] Ar2) as Lp2. cbn [app] in Lp2. rewrite Hv2 in Lp2.
-  assert (SF2 : save_found L s (cas_after c1 w) = Ok (cas_after c1 w, List.concat (map fst outs), map snd outs, w)).
-  { unfold save_found. rewrite Hv2, Lp2, Houts. cbn [bind]. rewrite Ew'. reflexivity. }
+    (* the loop of the first save wrote it: it handed it an id, or it had one *)
+    assert (Hin : In o wr).
+    { apply omem_In. rewrite Hwr. change (omem o ([] ++ flat_map arr_of (tag_views [] (c_views c))) = true). rewrite tag_arrays, omem_odedup.
+      cbn [omem existsb orb]. apply omem_In. apply in_flat_map. exists v. split; [exact Hv|]. rewrite Ho. left. reflexivity. }
+    exact (wr_ids_ext c1 (cas_after c1 w) wr X2 Hwids o Hin). }
+  pose proof (loop_settled L s (c_views (cas_after c1 w)) (cas_after c1 w) [] [] [] Ar2) as Lp2. cbn [app] in Lp2. rewrite Hv2 in Lp2.
+  assert (SF2 : save_found_wr L s (cas_after c1 w) = Ok (cas_after c1 w, List.concat (map fst outs), map snd outs, wr, w)).
+  { unfold save_found_wr. rewrite Hv2, Lp2, Houts. cbn [bind]. rewrite Ew', <- Hwr. reflexivity. }
   assert (Eaa : cas_after (cas_after c1 w) w = cas_after c1 w) by reflexivity.
-  rewrite Ec2. rewrite (save_json_unfold _ _ outs w SF2), Eaa.
-  destruct (json_doc (cas_after c1 w) outs w) as [d'| |]; cbn [bind] in *; try discriminate. inversion HS0; subst. reflexivity.
+  rewrite Ec2. rewrite (save_json_unfold _ _ outs wr w SF2), Eaa.
+  destruct (json_doc (cas_after c1 w) outs wr w) as [d'| |]; cbn [bind] in *; try discriminate. inversion HS0; subst. reflexivity.
 Qed.
 
 (* C14 (JSON): a save only gives ids to id-less structures that it writes *)
-Lemma step_view_only_ids c fss views v c1 fss1 views1 :
-  step_view L s (Ok (c, fss, views)) v = Ok (c1, fss1, views1) ->
+Lemma step_view_only_ids c fss views wr v c1 fss1 views1 wr1 :
+  step_view L s (Ok (c, fss, views, wr)) v = Ok (c1, fss1, views1, wr1) ->
   only_ids_added c c1 (fun _ o => s_arr (v_sofa v) = Some o).
 Proof.
   unfold step_view. cbn [bind].
   assert (Hrefl : forall W, only_ids_added c c W).
   { intros W. split; [reflexivity|]. split; [reflexivity|]. split; [lia|]. split; [eauto|]. intros; congruence. }
   destruct (Json.enc_view (c_heap c) v) as [jv| |]; cbn [bind]; try discriminate.
-  destruct (s_arr (v_sofa v)) as [o|] eqn:Ea.
+  destruct (s_arr (v_sofa v)) as [o|] eqn:Ea; [destruct (omem o wr)|].
+  - cbn [bind]. destruct (Json.enc_sofa L c (v_sofa v)); cbn [bind]; try discriminate. intros [= <- _ _ _]. apply Hrefl.
   - destruct (hget (c_heap c) o) as [f|] eqn:Ef; cbn [bind]; [|discriminate].
     destruct (o_id f) as [i0|] eqn:Ei0.
     + destruct (Json.enc_fs L s c f); cbn [bind]; try discriminate. destruct (Json.enc_sofa L c (v_sofa v)); cbn [bind]; try discriminate.
-      intros [= <- _ _]. apply Hrefl.
+      intros [= <- _ _ _]. apply Hrefl.
     + destruct (Json.enc_fs L s _ _); cbn [bind]; try discriminate. destruct (Json.enc_sofa L _ (v_sofa v)); cbn [bind]; try discriminate.
-      intros [= <- _ _]. pose proof (ids_le_hset _ _ _ (c_next_id c) Ef Ei0) as Lh.
+      intros [= <- _ _ _]. pose proof (ids_le_hset _ _ _ (c_next_id c) Ef Ei0) as Lh.
       unfold only_ids_added. cbn [c_views c_heap c_next_id]. split; [reflexivity|]. split; [exact (proj1 Lh)|]. split; [lia|]. split; [exact (proj2 Lh)|].
       intros o' g g1 i Eg Ei Eg1 Ei1. destruct (N.eq_dec o' o) as [->|Hne].
       * rewrite (hget_hset_same _ _ _ _ Ef) in Eg1. inversion Eg1; subst g1. cbn [set_id o_id] in Ei1. inversion Ei1; subst i. split; [lia|reflexivity].
       * rewrite (hget_hset_other _ _ _ _ Hne) in Eg1. congruence.
-  - cbn [bind]. destruct (Json.enc_sofa L c (v_sofa v)); cbn [bind]; try discriminate. intros [= <- _ _]. apply Hrefl.
+  - cbn [bind]. destruct (Json.enc_sofa L c (v_sofa v)); cbn [bind]; try discriminate. intros [= <- _ _ _]. apply Hrefl.
 Qed.
-Lemma loop_only_ids : forall vs c fss views cN fssN viewsN,
-  fold_left (step_view L s) vs (Ok (c, fss, views)) = Ok (cN, fssN, viewsN) ->
+Lemma loop_only_ids : forall vs c fss views wr cN fssN viewsN wrN,
+  fold_left (step_view L s) vs (Ok (c, fss, views, wr)) = Ok (cN, fssN, viewsN, wrN) ->
   only_ids_added c cN (fun _ o => exists v, In v vs /\ s_arr (v_sofa v) = Some o).
 Proof.
-  induction vs as [|v r IH]; intros c fss views cN fssN viewsN H.
+  induction vs as [|v r IH]; intros c fss views wr cN fssN viewsN wrN H.
   - cbn [fold_left] in H. inversion H; subst. split; [reflexivity|]. split; [reflexivity|]. split; [lia|]. split; [eauto|]. intros; congruence.
-  - cbn [fold_left] in H. destruct (step_view L s (Ok (c, fss, views)) v) as [[[c1 fss1] views1]|e|] eqn:E1;
+  - cbn [fold_left] in H. destruct (step_view L s (Ok (c, fss, views, wr)) v) as [[[[c1 fss1] views1] wr1]|e|] eqn:E1;
       [|rewrite fold_step_err in H; discriminate|rewrite fold_step_oof in H; discriminate].
-    eapply only_ids_weaken; [|eapply only_ids_trans; [exact (step_view_only_ids _ _ _ _ _ _ _ E1)|exact (IH _ _ _ _ _ _ H)]].
+    eapply only_ids_weaken; [|eapply only_ids_trans; [exact (step_view_only_ids _ _ _ _ _ _ _ _ _ E1)|exact (IH _ _ _ _ _ _ _ _ H)]].
     intros i o [Ho|(v' & Hv' & Ho)]; [exists v; split; [left; reflexivity|exact Ho]|exists v'; split; [right; exact Hv'|exact Ho]].
 Qed.
 Theorem json_save_preserves_content c d c2 : save_json L s mode c = Ok (d, c2) ->
@@ -921,17 +922,17 @@ Theorem json_save_preserves_content c d c2 : save_json L s mode c = Ok (d, c2) -
     only_ids_added c c2 (fun i o => In o (sofa_arrays c) \/ In (i, o) (w_all w)).
 Proof.
   intros HS. unfold save_json in HS.
-  destruct (save_found L s c) as [[[[c1 sofa_fs] views] w]| |] eqn:Esf; cbn [bind] in HS; try discriminate.
+  destruct (save_found_wr L s c) as [[[[[c1 sofa_fs] views] wr] w]| |] eqn:Esf; cbn [bind] in HS; try discriminate.
   assert (Ec2 : c2 = cas_after c1 w).
-  { destruct (mapM _ (sort_ids (w_all w))) as [fss| |] in HS; cbn [bind] in HS; try discriminate.
+  { destruct (mapM _ (unwritten wr (sort_ids (w_all w)))) as [fss| |] in HS; cbn [bind] in HS; try discriminate.
     destruct (mapM _ (sort_ids (w_all w))) as [used| |] in HS; cbn [bind] in HS; try discriminate.
     destruct (ser_types s mode used) in HS; cbn [bind] in HS; try discriminate. inversion HS; reflexivity. }
-  exists c1, sofa_fs, views, w. split; [reflexivity|]. split; [exact Ec2|]. subst c2.
-  unfold save_found in Esf.
-  destruct (fold_left (step_view L s) (c_views c) (Ok (c, [], []))) as [[[c1' sfs] vws]| |] eqn:Efold; cbn [bind] in Esf; try discriminate.
-  destruct (find_all_fs true s c1') as [w0| |] eqn:Ew; cbn [bind] in Esf; try discriminate. inversion Esf; subst c1' sfs vws w0.
+  exists c1, sofa_fs, views, w. split; [unfold save_found; rewrite Esf; reflexivity|]. split; [exact Ec2|]. subst c2.
+  unfold save_found_wr in Esf.
+  destruct (fold_left (step_view L s) (c_views c) (Ok (c, [], [], []))) as [[[[c1' sfs] vws] wr']| |] eqn:Efold; cbn [bind] in Esf; try discriminate.
+  destruct (find_all_fs true s c1') as [w0| |] eqn:Ew; cbn [bind] in Esf; try discriminate. inversion Esf; subst c1' sfs vws wr' w0.
   rewrite find_all_fs_from in Ew.
-  eapply only_ids_weaken; [|eapply only_ids_trans; [exact (loop_only_ids _ _ _ _ _ _ _ Efold)|exact (find_all_only_ids _ _ _ _ _ Ew)]].
+  eapply only_ids_weaken; [|eapply only_ids_trans; [exact (loop_only_ids _ _ _ _ _ _ _ _ _ Efold)|exact (find_all_only_ids _ _ _ _ _ Ew)]].
   intros i o [(v & Hv & Ho)|H]; [left|right; exact H].
   unfold sofa_arrays. apply in_flat_map. exists v. split; [exact Hv|]. rewrite Ho. left. reflexivity.
 Qed.
